@@ -323,6 +323,7 @@ func (cs *chainSet) realise(lists [][]mtx, firstAcct int, baseFee *big.Int, fp *
 type built struct {
 	block    *types.Block
 	envelope *engine.ExecutionPayloadEnvelope
+	empty    *engine.ExecutionPayloadEnvelope // the transaction-less payload that is always built first
 	reverted []*types.Transaction
 	revIdx   []uint32
 }
@@ -371,28 +372,32 @@ func build(bc *core.BlockChain, k *blockkit.Kit, sub txpool.SubPool, limit uint6
 		return nil, errors.New("payload resolved to nil")
 	}
 	blk, _, rtx, ridx := p.FullBlockAndReceipts()
-	return &built{block: blk, envelope: env, reverted: rtx, revIdx: ridx}, nil
+	return &built{block: blk, envelope: env, empty: p.ResolveEmpty(), reverted: rtx, revIdx: ridx}, nil
 }
 
 // newPayload submits the envelope through the engine API version of the fork.
 func (cs *chainSet) newPayload(b *built) (engine.PayloadStatusV1, error) {
-	ctx := context.Background()
-	ed := *b.envelope.ExecutionPayload
 	hashes := []common.Hash{}
 	for _, tx := range b.block.Transactions() {
 		hashes = append(hashes, tx.BlobHashes()...)
 	}
+	return cs.submit(b.envelope, hashes, b.block.BeaconRoot())
+}
+
+func (cs *chainSet) submit(env *engine.ExecutionPayloadEnvelope, hashes []common.Hash, beaconRoot *common.Hash) (engine.PayloadStatusV1, error) {
+	ctx := context.Background()
+	ed := *env.ExecutionPayload
 	reqs := []hexutil.Bytes{}
-	for _, rq := range b.envelope.Requests {
+	for _, rq := range env.Requests {
 		reqs = append(reqs, rq)
 	}
 	switch {
 	case cs.k.AtLeast("amsterdam"):
-		return cs.api.NewPayloadV5(ctx, ed, hashes, b.block.BeaconRoot(), reqs)
+		return cs.api.NewPayloadV5(ctx, ed, hashes, beaconRoot, reqs)
 	case cs.k.AtLeast("prague"):
-		return cs.api.NewPayloadV4(ctx, ed, hashes, b.block.BeaconRoot(), reqs)
+		return cs.api.NewPayloadV4(ctx, ed, hashes, beaconRoot, reqs)
 	default:
-		return cs.api.NewPayloadV3(ctx, ed, hashes, b.block.BeaconRoot())
+		return cs.api.NewPayloadV3(ctx, ed, hashes, beaconRoot)
 	}
 }
 
@@ -501,6 +506,20 @@ func (d *driver) verifyImport(cs *chainSet, b *built, label string, replay any) 
 		d.sum.Violate(fmt.Sprintf("%s: engine NewPayload status %s for a locally built block (%s)", label, st.Status, msg), replay)
 	}
 	d.sum.Count("newPayload")
+	// 2b. the transaction-less payload that BuildPayload always prepares first
+	if b.empty != nil && b.empty.ExecutionPayload.BlockHash != blk.Hash() {
+		st, err := cs.submit(b.empty, []common.Hash{}, blk.BeaconRoot())
+		if err != nil || st.Status != engine.VALID {
+			d.sum.Violate(fmt.Sprintf("%s: engine NewPayload on the locally built EMPTY payload: status %s err %v", label, st.Status, err), replay)
+		}
+		reqs := b.empty.Requests
+		if eb, err := engine.ExecutableDataToBlock(*b.empty.ExecutionPayload, []common.Hash{}, blk.BeaconRoot(), reqs); err != nil {
+			d.sum.Violate(fmt.Sprintf("%s: empty payload does not convert back to a block: %v", label, err), replay)
+		} else if _, err := cs.bc2.InsertBlockWithoutSetHead(ctx, eb, false); err != nil {
+			d.sum.Violate(fmt.Sprintf("%s: empty block built by the miner rejected by import: %v", label, err), replay)
+		}
+		d.sum.Count("empty-payload")
+	}
 	// 3. the importer's view of the roots equals the builder's header
 	if got := cs.eth.BlockChain().GetBlockByHash(blk.Hash()); got == nil {
 		d.sum.Violate(fmt.Sprintf("%s: block not stored by the engine API importer", label), replay)
@@ -702,7 +721,7 @@ func (d *driver) runRandom(forks []string, rounds, ntx int, seed int64) {
 		r := tl.Rand(seed*7919 + int64(fi))
 		cs := d.set(fork, 8_000_000)
 		k := cs.k
-		k.Senders = 6
+		k.Senders = 5 // key 5 never sends: it is the set-code authority
 		bc := cs.eth.BlockChain()
 		pool := cs.eth.TxPool()
 		for round := 0; round < rounds; round++ {
@@ -714,22 +733,53 @@ func (d *driver) runRandom(forks []string, rounds, ntx int, seed int64) {
 			rejected := 0
 			for i := 0; i < ntx; i++ {
 				sp := k.RandTx(r)
-				if sp.AuthKey >= 0 {
-					continue // pools restrict delegated senders; set-code transactions are covered by the chain-maker drivers
-				}
 				if _, ok := nonces[sp.From]; !ok {
+					// next free nonce: TxPool.Nonce was observed to fall back to the state nonce after a head change
+					// although executable transactions of the account are still pending, so the pending list is consulted too
 					nonces[sp.From] = pool.Nonce(k.Addrs[sp.From])
+					pe, qu := pool.ContentFrom(k.Addrs[sp.From])
+					for _, t := range append(pe, qu...) {
+						if t.Nonce() >= nonces[sp.From] {
+							nonces[sp.From] = t.Nonce() + 1
+							d.sum.Count("pool-nonce-behind-pending")
+						}
+					}
 				}
 				sp.Tip = int64(1 + r.Intn(40))
 				if r.Intn(3) == 0 {
 					sp.Gas = uint64(100_000 + r.Intn(8)*1_000_000)
 				}
-				tx := k.Sign(sp, nonces[sp.From], new(big.Int).Mul(baseFee, big.NewInt(2)), 0)
+				var authNonce uint64
+				if sp.AuthKey >= 0 {
+					// the pools allow a single in-flight transaction for accounts with a (pending) delegation,
+					// so delegations are always signed by the non-sending key 5
+					sp.AuthKey, sp.AuthSelf = 5, false
+					to := k.Addrs[5]
+					sp.To = &to
+					if _, ok := nonces[sp.AuthKey]; !ok {
+						nonces[sp.AuthKey] = pool.Nonce(k.Addrs[sp.AuthKey])
+					}
+					authNonce = nonces[sp.AuthKey]
+				}
+				tx := k.Sign(sp, nonces[sp.From], new(big.Int).Mul(baseFee, big.NewInt(2)), authNonce)
 				if errs := pool.Add([]*types.Transaction{tx}, true); errs[0] != nil {
 					rejected++
+					d.sum.Count("pool-reject:" + sp.Kind + ":" + strings.SplitN(errs[0].Error(), ":", 2)[0])
+					if os.Getenv("C36_DEBUG") != "" {
+						pe, qu := pool.ContentFrom(k.Addrs[sp.From])
+						var pn []uint64
+						for _, t := range pe {
+							pn = append(pn, t.Nonce())
+						}
+						st, _ := bc.State()
+						fmt.Fprintf(os.Stderr, "reject %s round %d from %d nonce %d poolNonce %d state %d pending %v queued %d: %v\n", fork, round, sp.From, nonces[sp.From], pool.Nonce(k.Addrs[sp.From]), st.GetNonce(k.Addrs[sp.From]), pn, len(qu), errs[0])
+					}
 					continue
 				}
 				nonces[sp.From]++
+				if sp.AuthKey >= 0 {
+					nonces[sp.AuthKey]++
+				}
 				d.sum.Count("tx:" + sp.Kind)
 			}
 			d.sum.Counts["pool-rejected"] += rejected
@@ -800,6 +850,17 @@ func (d *driver) runRandom(forks []string, rounds, ntx int, seed int64) {
 			}
 			if err := pool.Sync(); err != nil {
 				tl.Fatal("pool sync: %v", err)
+			}
+			if os.Getenv("C36_DEBUG") != "" {
+				time.Sleep(500 * time.Millisecond)
+				for i := 0; i < 5; i++ {
+					pe, _ := pool.ContentFrom(k.Addrs[i])
+					var pn []uint64
+					for _, t := range pe {
+						pn = append(pn, t.Nonce())
+					}
+					fmt.Fprintf(os.Stderr, "after sync %s round %d key %d poolNonce %d pending %v\n", fork, round, i, pool.Nonce(k.Addrs[i]), pn)
+				}
 			}
 			// second chain instance: plain InsertChain
 			if _, err := cs.bc2.InsertChain(types.Blocks{blk}); err != nil {
